@@ -33,6 +33,7 @@ FIXED = [
  ("F45", ["C13", "C10"], "cd37d94", "whip on a binary file cut exactly at a box boundary (last boxes missing) returned normally and left zeros for the missing boxes: the boxes found were never compared with the level header"),
  ("F46", ["C13"], "90f65f3", "chef on an input binary file cut after its first box returned normally: the single box found was broadcast to every box the level header lists for that file"),
  ("F47", ["C13"], "73637f4", "chk2plt on a state binary file cut after its first box returned normally: the single box found was broadcast to every box the level header lists for that file"),
+ ("F48", ["C13"], "5d6e93a", "combine on a first input whose binary file is cut after its first box returned normally: the single offset found was broadcast to every box the level header lists for that file"),
  ("F21", ["C13"], "b455f93", "combine default output with a trailing slash on input 1 was input 2 itself (its Header overwritten)"),
  ("F6",  ["C07"], "a55b6fc", "mandoline default position was (high-low)/2, outside the domain for shifted origins -> uninitialised image"),
  ("F20", ["C13"], "c0fc4b6", "mandoline default output with a trailing slash landed inside the input plotfile"),
